@@ -60,6 +60,10 @@ type HCase struct {
 	AcceptSep string   `json:"accept_sep"`
 	ReqSize   int      `json:"req_size"`
 	RespSize  int      `json:"resp_size"`
+	// Stray: the request also carries the *other* accept header (plain
+	// Accept-Encoding on streaming/gRPC requests, Connect-Accept-Encoding on
+	// unary ones), naming algorithms; it is not this protocol's advertisement.
+	Stray string `json:"stray,omitempty"`
 }
 
 func supported(extra []string) []string {
@@ -98,6 +102,14 @@ func checkH(tt *testing.T, c HCase) (pbt.Info, error) {
 	encH, accH := headerNames(c.Protocol, c.Kind)
 	if c.ReqEnc != "" && req.Header.Get(encH) == "" {
 		req.Header.Set(encH, c.ReqEnc) // unary Connect builder names the encoding only when it compresses
+	}
+	if c.Stray != "" {
+		other := "Accept-Encoding"
+		if accH == other {
+			other = "Connect-Accept-Encoding"
+		}
+		req.Header.Set(other, c.Stray)
+		info.Label("stray-accept-header")
 	}
 	rec := memnet.Serve(h, "POST", prog.Procedure(c.Kind), req.Header, bytes.NewReader(req.Body), memnet.ServeOpts{})
 	where := fmt.Sprintf("%s/%s/%s handler supporting %v (min %d), request encoding %q (compressed=%v), accept %q", c.Protocol, c.Codec, c.Kind, S, c.HMin, c.ReqEnc, reqCompressed, strings.Join(c.Accept, c.AcceptSep))
@@ -214,6 +226,9 @@ func genH(t *rapid.T) HCase {
 	c.Accept = algList(t, "accept", []string{"gzip", "deflate", "zlib", "toy", "br", "identity", "zstd", "GZIP", "gzip;q=0", "deflate;q=0", "toy; q=0"}, 5) // (q=0: explicitly refused)
 	c.AcceptSep = rapid.SampledFrom([]string{",", ", "}).Draw(t, "sep")
 	c.ReqSize = rapid.SampledFrom([]int{0, 3, 100, 3000}).Draw(t, "reqsize")
+	if rapid.IntRange(0, 3).Draw(t, "stray") == 0 {
+		c.Stray = rapid.SampledFrom([]string{"gzip", "gzip, deflate", "deflate", "toy"}).Draw(t, "strayList")
+	}
 	base := 100
 	if c.HMin > 1 && c.HMin < 1<<20 {
 		base = c.HMin
